@@ -172,6 +172,8 @@ pub fn profile(prop: &str, rng: &mut Rng) -> Profile {
             p.rejected = true;
             p.wait_idle = true;
             p.purge_heavy = rng.chance(50);
+            // a fifth of the histories also use update_state() to move `last` (a public write path)
+            p.update_state = rng.chance(20);
         }
         "C16" => {
             p.nops = (10, 80);
